@@ -50,6 +50,7 @@ struct {
     size_t dname_len;            /* a NUL position of the d_name readdir handed out last          */
     unsigned long pl_calls;      /* spifconf_parse_line calls (bumped by the entry annotation)    */
     _Bool exc;                   /* a parse_line call hit the excused behaviour (conf.h PL_PREPROC_AGAIN) */
+    unsigned long os0;           /* vg_open_streams at the entry of spifconf_parse (entry annotation) */
 } vg_ct;
 /* event order */
 struct {
@@ -100,6 +101,11 @@ struct {
     unsigned long res;           /* last result of v_ctx_lookup                                   */
     int hit;                     /* outcome of the comparison at the returned index               */
 } vg_lkp;
+/* ghost lengths of string arguments (never assigned; env.h's vg_n1..3 are used up by the table invariants) */
+size_t vg_m1, vg_m2, vg_m3;
+#ifndef VERIF_MAX_CTX
+# define VERIF_MAX_CTX 255
+#endif
 /* every ghost group, for assigns clauses */
 #define VG_ALL vg_sp, vg_ct, vg_ev, vg_fg, vg_tf, vg_hl, vg_st, vg_lkp
 #define vg_spawned        vg_sp.spawned
@@ -112,6 +118,7 @@ struct {
 #define vg_dname_len      vg_ct.dname_len
 #define vg_pl_calls       vg_ct.pl_calls
 #define vg_exc            vg_ct.exc
+#define vg_os0            vg_ct.os0
 #define vg_seq            vg_ev.seq
 #define vg_t_chomp        vg_ev.t_chomp
 #define vg_t_expand       vg_ev.t_expand
@@ -291,13 +298,17 @@ char *strstr(const char *h, const char *nd)
 /* ======================================================================================
  * 4. stdio / OS stubs
  * ====================================================================================== */
+#ifndef VERIF_MAX_NEST
+# define VERIF_MAX_NEST 255
+#endif
 /* A stream is a heap cell; only its identity matters (libast never looks inside). */
 FILE *fopen(const char *path, const char *mode)
 {
     __CPROVER_assert(path != NULL && __CPROVER_r_ok(path, 1), "fopen: path readable");
     __CPROVER_assert(mode != NULL, "fopen: mode not NULL");
-    /* ASSUMES (domain of C09: include nesting <= 255): a 256th nested file cannot be opened */
-    if (fstate_idx >= 255 || nondet_bool()) { return (FILE *) 0; }
+    /* ASSUMES (domain of C09: include nesting <= 255; bounded units lower VERIF_MAX_NEST): a file nested
+     * deeper than that cannot be opened */
+    if (fstate_idx >= VERIF_MAX_NEST || nondet_bool()) { return (FILE *) 0; }
     vg_open_streams++;
     vg_fg_hdr = 1;
     return (FILE *) malloc(sizeof(FILE));
@@ -554,6 +565,25 @@ int v_snprintf(char *d, size_t size, int unused)
 /* ======================================================================================
  * 5c. loop contracts of conf.c (text of the annotation table annot/conf.c.conf.ann)
  * ====================================================================================== */
+/* spifconf_parse (bounded unit C09.parse).  PARSE_INV: contracts/conf.h part 1.
+ *  loop 1  for (; fstate_idx > 0;)                               one file per iteration
+ *  loop 2  for (; fgets(buff, CONFIG_BUFF, file_peek_fp());)     one chunk per iteration; at a line boundary
+ *  loop 3  for (; fgets(...) && !strrchr(buff, '\n'););          rest of an over-long line: mid-line throughout
+ * measure: every chunk costs budget; a push (at most one per chunk) is paid by the chunk that caused it */
+#define VCA_PARSE_ASSIGNS \
+    __CPROVER_assigns(__CPROVER_object_whole(buff), spifconf_vars, fstate, fstate_idx, fstate_cnt, __CPROVER_object_whole(fstate), \
+                      ctx_state, ctx_state_idx, ctx_state_cnt, __CPROVER_object_whole(ctx_state), VG_ALL)
+#define VCA_PARSE_L1 VCA_PARSE_ASSIGNS \
+    __CPROVER_loop_invariant(PARSE_INV && vg_pl_calls == vg_deliverable && !vg_fg_mid) \
+    __CPROVER_decreases(2 * vg_fg_budget + fstate_idx)
+#define VCA_PARSE_L2 VCA_PARSE_ASSIGNS \
+    __CPROVER_loop_invariant(PARSE_INV && fstate_idx >= 1 && vg_pl_calls == vg_deliverable && !vg_fg_mid) \
+    __CPROVER_decreases(2 * vg_fg_budget + fstate_idx)
+#define VCA_PARSE_L3 \
+    __CPROVER_assigns(__CPROVER_object_whole(buff), vg_fg) \
+    __CPROVER_loop_invariant(PARSE_INV && fstate_idx >= 1 && vg_pl_calls == vg_deliverable && vg_fg_mid) \
+    __CPROVER_decreases(vg_fg_budget)
+
 /* spifconf_find_file, loop 1: for (path = pathlist; path && *path != '\0'; path = p) */
 #define VCA_FIND_FILE_LOOP \
     __CPROVER_assigns(path, p, fst, __CPROVER_object_whole(full_path)) \
